@@ -459,8 +459,9 @@ func treeEvents(n *idr.Node, out *[]string) {
 // ---- running the implementation -------------------------------------------------------------------
 
 type textCase struct {
-	Kind string `json:"kind"`
-	Text string `json:"text"`
+	Kind   string `json:"kind"`
+	Text   string `json:"text"`
+	Schema string `json:"schema,omitempty"` // json-seq only: a schema other than the harness's
 }
 
 // runXML reads one XML text with target ".", evaluates the property oracle (the tree equals the
